@@ -580,8 +580,14 @@ func buildBatch(j int, recs []uint64) (*builtBatch, error) {
 	bb := &builtBatch{b: kbatchpkg.NewKinesisBatch(fmt.Sprintf("bk%d", j), method), orig: map[uint64]origRec{}, count: map[string]int{}}
 	for _, id := range recs {
 		t, k := txnOf(id)
+		// in a partitioned batch every record carries the batch's partition key (the batcher puts only
+		// records of one key into a batch): the records of an odd batch SHARE their Kinesis partition key
+		pk := fmt.Sprintf("pk-%d", id)
+		if method == kutils.KINESIS_PART_BATCH {
+			pk = fmt.Sprintf("bk%d", j)
+		}
 		m := &marshaller.MarshalledMessage{Operation: "INSERT", Table: "t", Json: []byte(fmt.Sprintf(`{"id":%d}`, id)),
-			TimeBasedKey: k, WalStart: id, Transaction: t, PartitionKey: fmt.Sprintf("pk-%d", id)}
+			TimeBasedKey: k, WalStart: id, Transaction: t, PartitionKey: pk}
 		ok, err := bb.b.Add(m)
 		if !ok || err != nil {
 			return nil, fmt.Errorf("batch.Add refused record %d: %v", id, err)
